@@ -263,6 +263,52 @@ pub fn run_case_y(script: &Script, path: &str, step: usize, fault: Option<Fault>
     out
 }
 
+/// Every write of the commit at `step` answered short once (half of it transferred, no error): the
+/// commit must succeed and everything must be as after an undisturbed commit.
+pub fn benign_short_writes(script: &Script, path: &str, step: usize) -> Vec<(usize, String, String)> {
+    let mut out = vec![];
+    let base = run_case(script, path, step, None, None);
+    if !base.violations.is_empty() {
+        return out;
+    }
+    for (ci, k) in base.kinds.iter().enumerate() {
+        if *k != Kind::Write {
+            continue;
+        }
+        let alen = arg_len_of(script, path, step, ci);
+        for n in [alen / 2, 1, alen.saturating_sub(1)] {
+            if n == 0 || n >= alen {
+                continue;
+            }
+            let mut r = match Runner::new(path, script.cfg.clone()) {
+                Ok(r) => r,
+                Err(_) => return out,
+            };
+            let mut ok = true;
+            for a in &script.actions[..step] {
+                if !r.step(a, &Oracles::NONE).is_empty() || r.poisoned {
+                    ok = false;
+                    break;
+                }
+            }
+            if !ok {
+                continue;
+            }
+            r.fault_next_commit = Some(Fault::at(ci as u64, FaultMode::ShortOk(n)));
+            let full = Oracles { rets: true, dump_after: true, fileck: true, dbcheck: true, reopen_copy: true, ..Oracles::NONE };
+            for v in r.step(&script.actions[step], &full) {
+                out.push((ci, format!("short_write_ok:{}", v.class), format!("write #{} of the commit transfers only {} of {} bytes (no error): {}", ci, n, alen, v.detail)));
+            }
+            if !r.poisoned {
+                for v in r.step(&Action::Tx { ops: vec![OpSpec::bucket("goc", &[], "fu"), OpSpec::put(&["fu"], "after", "w*300")], commit: true }, &full) {
+                    out.push((ci, format!("short_write_ok:followup:{}", v.class), format!("after a commit whose write #{} was answered short: {}", ci, v.detail)));
+                }
+            }
+        }
+    }
+    out
+}
+
 fn arg_len_of(script: &Script, path: &str, step: usize, call: usize) -> usize {
     // length of the write at call index `call`, from a logged fault-free run
     let mut r = match Runner::new(path, script.cfg.clone()) {
@@ -395,6 +441,10 @@ pub fn worker(idx: usize) {
                     }
                 }
             }
+            for (ci, class, detail) in benign_short_writes(sc, &path2, step) {
+                cases += 1;
+                viols.push(json!([ci, "write", "short-ok", class, detail, Value::Null]));
+            }
             json!({"cases": cases, "calls": kinds.iter().map(|k| k.name()).collect::<Vec<_>>(), "v": viols, "outcomes": outcomes})
         });
         match r {
@@ -509,6 +559,13 @@ pub fn replay(v: &Value) -> i32 {
         let sc = &scs[si];
         let base = run_case(sc, &path, step, None, None);
         println!("fault-free commit issues: {:?}", base.kinds.iter().map(|k| k.name()).collect::<Vec<_>>());
+        if mode_name == "short-ok" {
+            let v = benign_short_writes(sc, &path, step);
+            for (ci, class, detail) in &v {
+                println!("   !! [write #{}] {}: {}", ci, class, detail);
+            }
+            return if v.is_empty() { 0 } else { 1 };
+        }
         let alen = if kind == Kind::Write { arg_len_of(sc, &path, step, call as usize) } else { 0 };
         let mode = match mode_by_name(kind, &mode_name, alen) {
             Some(m) => m,
